@@ -103,12 +103,18 @@ def parseCfg? (dicts : String → Option Validate.VDict) (toks : List String) : 
     | some "1" => some true
     | some "0" => some false
     | some _ => none
+  -- EnableNextExpectedMsgSeqNum: `nx=0|1`; absent = off
+  let nx : Bool ← match kvLookup kv "nx" with
+    | none => some false
+    | some "1" => some true
+    | some "0" => some false
+    | some _ => none
   let cfg : Cfg := {
     initiator := ← b "init", bs := ← n "bs", chunk := ← n "chunk",
     resetOnLogon := ← b "rol", resetOnLogout := ← b "rolo", resetOnDisconnect := ← b "rod",
     refreshOnLogon := ← b "refresh", persist := ← b "persist", skipLatency := ← b "skiplat",
     hb := ← i "hb", hbOverride := ← b "hbo", applVer := if (← n "bs") == 5 then "9" else "",
-    lookThroughPending := ← b "ltp", resetSeqTime := rst, lastSeqProcessed := lsp,
+    lookThroughPending := ← b "ltp", resetSeqTime := rst, lastSeqProcessed := lsp, nextExpected := nx,
     validator := ← parseVCfg? dicts kv }
   pure (cfg, ← i "s0", ← i "t0")
 
